@@ -18,6 +18,7 @@ type TraceReport struct {
 	Cases  int64             `json:"cases"`
 	Events int64             `json:"events"`
 	Bad    []json.RawMessage `json:"bad"`
+	Diffs  []json.RawMessage `json:"diffs"`
 }
 
 type TraceJob struct {
@@ -30,6 +31,8 @@ type TraceJob struct {
 	Heap    string
 	Timeout time.Duration
 	Extra   map[string]string
+	Header  []byte // optional first record of every shard (e.g. the schema); not counted as a case
+	Diffs   *[]json.RawMessage // if set, receives the diagnostic "diffs" entries of the reports
 }
 
 // RunTrace validates recorded cases with TLC, in parallel shards. It returns
@@ -69,6 +72,10 @@ func RunTrace(c *core.Ctx, job TraceJob) (bad []json.RawMessage, ok bool) {
 			tf := filepath.Join(dir, "trace.ndjson")
 			rf := filepath.Join(dir, "report.ndjson")
 			var buf bytes.Buffer
+			if job.Header != nil {
+				buf.Write(job.Header)
+				buf.WriteByte('\n')
+			}
 			var wantEvents int64
 			for i := lo; i < hi; i++ {
 				buf.Write(job.Lines[i])
@@ -118,6 +125,9 @@ func RunTrace(c *core.Ctx, job TraceJob) (bad []json.RawMessage, ok bool) {
 		}
 		c.AddTLC(outs[s].res)
 		bad = append(bad, outs[s].rep.Bad...)
+		if job.Diffs != nil {
+			*job.Diffs = append(*job.Diffs, outs[s].rep.Diffs...)
+		}
 	}
 	return bad, ok
 }
